@@ -270,3 +270,118 @@ def _assigned_in(s, name, env):
             if r is not None:
                 return r
     return None
+
+
+# ======================================================================
+# C07.R8 - Jordan-Wigner parity of the local operators of the explicit wiring
+def family_ops(fam):
+    """('l' | 'r', [operator words]) of a node family name, e.g. a_dag_a_ann_r -> ('r', ['dag', 'ann'])"""
+    side = fam[-1]
+    words = [w for w in fam[:-2].split('_') if w in ('dag', 'ann')]
+    return side, words
+
+
+def ops_of_ref(fam, keys, spin):
+    """list of (word, key text(s)) for the operators a family node stands for; the last key is the position"""
+    side, words = family_ops(fam)
+    ks = keys[:-1]
+    per = 2 if spin else 1
+    out = []
+    for n_, w in enumerate(words):
+        part = ks[n_ * per:(n_ + 1) * per]
+        out.append((w, tuple(norm(k) for k in part), part))
+    return side, out
+
+
+LETTER = {frozenset(['dag']): 'C', frozenset(['ann']): 'A', frozenset(['dag', 'ann']): 'N'}
+
+
+def rule_R8(chk, repo, rid='C07.R8'):
+    chk.rule(rid, 'Jordan-Wigner parity of the explicit wiring: the local operator of every edge of generate_graph is the '
+                  'operator(s) it places (read from the difference of the two node families) times Z on every mode of that site '
+                  'that carries no operator of its own and is passed by an odd number of Jordan-Wigner strings (parity of the '
+                  'operators still to be placed to the right, plus, for the up slot, an operator on the down slot); transitions '
+                  'carry Z (ZZ) iff the family holds an odd number of operators')
+    conv = repo.cls('SpinOperatorConverter')
+    pm = conv.class_attrs.get('oid_single_pair_map')
+    inv = {}
+    for k, v in zip(pm.keys, pm.values):
+        inv[(k.elts[0].attr, k.elts[1].attr)] = v.attr
+    n = 0
+    for cname, spin in (('MolecularOpGraphNodes', False), ('SpinMolecularOpGraphNodes', True)):
+        ci = repo.cls(cname)
+        gg = ci.methods['generate_graph']
+        spins = spin_variables(gg.node)
+        for call in ast.walk(gg.node):
+            if not (isinstance(call, ast.Call) and norm(call.func) == 'OpGraphEdge' and len(call.args) >= 3):
+                continue
+            ends = call.args[1]
+            refs = [node_ref(x) for x in ends.elts]
+            ops = call.args[2]
+            oid_expr = ops.elts[0].elts[0]
+            (sa, oa), (sb, ob) = [ops_of_ref(f, k, spin) for f, k in refs]
+            sides = {family_ops(f)[0] for f, _ in refs}
+            if len(sides) != 1:
+                raise AnalysisError(f'{cname}.generate_graph line {call.lineno}: edge connects a left and a right family')
+            side = sides.pop()
+            ka = {(w, k) for w, k, _ in oa}
+            kb = {(w, k) for w, k, _ in ob}
+            if side == 'l':
+                placed = [x for x in ob if (x[0], x[1]) not in ka]
+                nright_parity = len(ob) % 2
+                lost = [x for x in oa if (x[0], x[1]) not in kb]
+            else:
+                placed = [x for x in oa if (x[0], x[1]) not in kb]
+                nright_parity = len(ob) % 2
+                lost = [x for x in ob if (x[0], x[1]) not in ka]
+            w = where(repo, gg, call)
+            if lost:
+                chk.ob(rid, w, f'{cname}: edge {refs[0][0]} -> {refs[1][0]} keeps the operators already accounted for', False,
+                       f'operators {[(x[0], x[1]) for x in lost]} appear on one side only', key=f'{rid}|{cname}|lost|{norm(call)[:150]}')
+                n += 1
+                continue
+            spin_vars = sorted(spins) if spin else []
+            guards = spin_guards(gg.node, call, spins)
+            ok_all, detail, checked = True, '', 0
+            for vals in itertools.product((0, 1), repeat=len(spin_vars)):
+                env = dict(zip(spin_vars, vals))
+                try:
+                    if not all(_truth(t, env) == want for t, want in guards):
+                        continue
+                except (KeyError, ValueError):
+                    pass
+                try:
+                    oe = oid_expr
+                    if isinstance(oe, ast.Name):
+                        oe = resolve_oid(gg.node, call, oe.id, env)
+                    o = _eval(oe, env)
+                    if spin:
+                        slots = {0: set(), 1: set()}
+                        for wd, _, part in placed:
+                            slots[_eval(part[1], env)].add(wd)
+                        n_dn = sum(1 for wd, _, part in placed if _eval(part[1], env) == 1)
+                        letters = []
+                        for s_ in (0, 1):
+                            if slots[s_]:
+                                letters.append(LETTER[frozenset(slots[s_])])
+                            else:
+                                par = nright_parity + (n_dn if s_ == 0 else 0)
+                                letters.append('Z' if par % 2 else 'I')
+                        want_name = inv.get(tuple(letters))
+                    else:
+                        own = {wd for wd, _, _ in placed}
+                        want_name = LETTER[frozenset(own)] if own else ('Z' if nright_parity else 'I')
+                except (KeyError, ValueError) as ex:
+                    raise AnalysisError(f'{cname}.generate_graph line {call.lineno}: cannot evaluate `{ex}`')
+                checked += 1
+                if o[1] != want_name:
+                    ok_all = False
+                    detail = (f'for {env}: places {[(x[0], x[1]) for x in placed]} with {"an odd" if nright_parity else "an even"} '
+                              f'number of operators further right: expected {want_name}, found {o[1]}')
+                    break
+            if checked == 0:
+                continue
+            chk.ob(rid, w, f'{cname}: edge {refs[0][0]} -> {refs[1][0]} carries the Jordan-Wigner consistent operator '
+                   f'({checked} spin assignment(s))', ok_all, detail, key=f'{rid}|{cname}|{norm(call)[:170]}')
+            n += 1
+    chk.floor(rid, n, 56)
